@@ -266,7 +266,7 @@ def bv(v, n=64):
 
 
 def simp(e):
-    return z3.simplify(e)
+    return z3.simplify(e, elim_sign_ext=False)
 
 
 class Event:
@@ -535,8 +535,51 @@ SETCC = {"sete", "setne", "setl", "setle", "setg", "setge", "setb", "setbe", "se
          "setz", "setnz"}
 
 
+_FPBITS = {}     # ast id of a bit-vector term -> (FP term it is the IEEE/x87 image of, keepalive)
+
+
+def fp2bv(v):
+    """IEEE image of an FP term, remembered so that bv2fp() gives the same FP term back
+    (z3 does not rewrite to_fp(to_ieee_bv(x)) to x, although it is valid for every x incl. NaN)."""
+    b = simp(z3.fpToIEEEBV(v))
+    _FPBITS[b.get_id()] = (v, b)
+    return b
+
+
+def bv2fp(b, sort):
+    b = simp(b)
+    hit = _FPBITS.get(b.get_id())
+    if hit is not None and hit[0].sort() == sort:
+        return hit[0]
+    return z3.fpBVToFP(b, sort)
+
+
+def strip_ext(v):
+    """v (BV) -> (narrow, signed) such that v is the sign- (signed=True) or zero-extension of narrow."""
+    v = simp(v)
+    if z3.is_app_of(v, z3.Z3_OP_SIGN_EXT):
+        return v.arg(0), True
+    if z3.is_app_of(v, z3.Z3_OP_ZERO_EXT):
+        return v.arg(0), False
+    if z3.is_app_of(v, z3.Z3_OP_CONCAT) and v.num_args() == 2 and z3.is_bv_value(v.arg(0)) and v.arg(0).as_long() == 0:
+        return v.arg(1), False
+    return v, True
+
+
+def int2fp_signed(v, sort):
+    """signed integer -> FP (round to nearest), canonicalised on the narrowest source term"""
+    n, sg = strip_ext(v)
+    if n.size() == v.size():
+        return z3.fpSignedToFP(RNE, v, sort)
+    return z3.fpSignedToFP(RNE, n, sort) if sg else z3.fpUnsignedToFP(RNE, n, sort)
+
+
 def x87_from_bits(b80):
     """80-bit memory image -> FP(15,64) value (assumes canonical encoding: integer bit = (exp != 0))."""
+    b80 = simp(b80)
+    hit = _FPBITS.get(b80.get_id())
+    if hit is not None and hit[0].sort() == X87:
+        return hit[0]
     s = z3.Extract(79, 79, b80)
     e = z3.Extract(78, 64, b80)
     f = z3.Extract(62, 0, b80)
@@ -549,7 +592,9 @@ def x87_to_bits(v):
     e = z3.Extract(77, 63, b)
     f = z3.Extract(62, 0, b)
     j = z3.If(e == bv(0, 15), bv(0, 1), bv(1, 1))
-    return z3.Concat(s, e, j, f)
+    r = simp(z3.Concat(s, e, j, f))
+    _FPBITS[r.get_id()] = (v, r)
+    return r
 
 
 def x87_canonical(b80):
@@ -1175,9 +1220,9 @@ class Machine:
     def _ssearith(self, s, ins, nbits, f):
         src, dst = ins.ops
         sort = F32 if nbits == 32 else F64
-        a = z3.fpBVToFP(self._xmm_read(s, dst, nbits), sort)
-        b = z3.fpBVToFP(self._xmm_read(s, src, nbits), sort)
-        r = z3.fpToIEEEBV(f(RNE, a, b))
+        a = bv2fp(self._xmm_read(s, dst, nbits), sort)
+        b = bv2fp(self._xmm_read(s, src, nbits), sort)
+        r = fp2bv(f(RNE, a, b))
         self._xmm_write_low(s, dst.reg, r, nbits)
         s.ip += 1
 
@@ -1202,8 +1247,8 @@ class Machine:
     def _ucomi(self, s, ins, nbits):
         src, dst = ins.ops
         sort = F32 if nbits == 32 else F64
-        a = z3.fpBVToFP(self._xmm_read(s, dst, nbits), sort)
-        b = z3.fpBVToFP(self._xmm_read(s, src, nbits), sort)
+        a = bv2fp(self._xmm_read(s, dst, nbits), sort)
+        b = bv2fp(self._xmm_read(s, src, nbits), sort)
         self._fpcmp_flags(s, a, b)
         s.ip += 1
 
@@ -1214,7 +1259,7 @@ class Machine:
         src, dst = ins.ops
         v = s.read(src, isize)
         sort = F32 if fbits == 32 else F64
-        r = z3.fpToIEEEBV(z3.fpSignedToFP(RNE, v, sort))
+        r = fp2bv(int2fp_signed(v, sort))
         self._xmm_write_low(s, dst.reg, r, fbits)
         s.ip += 1
 
@@ -1232,7 +1277,7 @@ class Machine:
     def _cvtt2si(self, s, ins, fbits, isize):
         src, dst = ins.ops
         sort = F32 if fbits == 32 else F64
-        x = z3.fpBVToFP(self._xmm_read(s, src, fbits), sort)
+        x = bv2fp(self._xmm_read(s, src, fbits), sort)
         if dst.size != isize:
             raise Unmodelled("cvtt destination size")
         s.set(dst, simp(fp_to_int(RTZ, x, isize, sort)))
@@ -1245,14 +1290,14 @@ class Machine:
 
     def i_cvtss2sd(self, s, ins):
         src, dst = ins.ops
-        x = z3.fpBVToFP(self._xmm_read(s, src, 32), F32)
-        self._xmm_write_low(s, dst.reg, z3.fpToIEEEBV(z3.fpFPToFP(RNE, x, F64)), 64)
+        x = bv2fp(self._xmm_read(s, src, 32), F32)
+        self._xmm_write_low(s, dst.reg, fp2bv(z3.fpFPToFP(RNE, x, F64)), 64)
         s.ip += 1
 
     def i_cvtsd2ss(self, s, ins):
         src, dst = ins.ops
-        x = z3.fpBVToFP(self._xmm_read(s, src, 64), F64)
-        self._xmm_write_low(s, dst.reg, z3.fpToIEEEBV(z3.fpFPToFP(RNE, x, F32)), 32)
+        x = bv2fp(self._xmm_read(s, src, 64), F64)
+        self._xmm_write_low(s, dst.reg, fp2bv(z3.fpFPToFP(RNE, x, F32)), 32)
         s.ip += 1
 
     # ---- x87 -----------------------------------------------------------------------------
@@ -1282,12 +1327,12 @@ class Machine:
         s.ip += 1
 
     def i_flds(self, s, ins):
-        x = z3.fpBVToFP(s.load(s.ea(ins.ops[0]), 4), F32)
+        x = bv2fp(s.load(s.ea(ins.ops[0]), 4), F32)
         self._push87(s, z3.fpFPToFP(RNE, x, X87))
         s.ip += 1
 
     def i_fldl(self, s, ins):
-        x = z3.fpBVToFP(s.load(s.ea(ins.ops[0]), 8), F64)
+        x = bv2fp(s.load(s.ea(ins.ops[0]), 8), F64)
         self._push87(s, z3.fpFPToFP(RNE, x, X87))
         s.ip += 1
 
@@ -1297,7 +1342,7 @@ class Machine:
 
     def _fild(self, s, ins, n):
         v = s.load(s.ea(ins.ops[0]), n // 8)
-        self._push87(s, z3.fpSignedToFP(RNE, v, X87))
+        self._push87(s, int2fp_signed(v, X87))
         s.ip += 1
 
     def i_fildl(self, s, ins): self._fild(s, ins, 32)
@@ -1316,9 +1361,16 @@ class Machine:
 
     def i_fadds(self, s, ins):
         rm = self._pc_rm(s)
-        x = z3.fpFPToFP(RNE, z3.fpBVToFP(s.load(s.ea(ins.ops[0]), 4), F32), X87)
+        x = z3.fpFPToFP(RNE, bv2fp(s.load(s.ea(ins.ops[0]), 4), F32), X87)
         a = self._pop87(s)
         s.st.append(z3.fpAdd(rm, a, x))
+        s.ip += 1
+
+    def i_fsubs(self, s, ins):
+        rm = self._pc_rm(s)
+        x = z3.fpFPToFP(RNE, bv2fp(s.load(s.ea(ins.ops[0]), 4), F32), X87)
+        a = self._pop87(s)
+        s.st.append(z3.fpSub(rm, a, x))
         s.ip += 1
 
     def _farith_p(self, s, ins, f):
@@ -1345,11 +1397,15 @@ class Machine:
         s.ip += 1
 
     def _fcomip(self, s, ins):
+        i = 1
         if ins.ops:
-            raise Unmodelled("fcomip with operands")
-        if len(s.st) < 2:
+            if len(ins.ops) == 2 and ins.ops[0].kind == "st" and ins.ops[1].kind == "st" and ins.ops[1].reg == 0:
+                i = ins.ops[0].reg
+            else:
+                raise Unmodelled("fcomip operand form")
+        if len(s.st) < i + 1 or i < 1:
             raise Unmodelled("x87 stack underflow in compare")
-        st0, st1 = s.st[-1], s.st[-2]
+        st0, st1 = s.st[-1], s.st[-1 - i]
         self._fpcmp_flags(s, st0, st1)
         s.st.pop()
         s.ip += 1
@@ -1368,13 +1424,13 @@ class Machine:
     def i_fstps(self, s, ins):
         rm = self._pc_rm(s)
         v = self._pop87(s)
-        s.store(s.ea(ins.ops[0]), simp(z3.fpToIEEEBV(z3.fpFPToFP(rm, v, F32))), 4)
+        s.store(s.ea(ins.ops[0]), fp2bv(z3.fpFPToFP(rm, v, F32)), 4)
         s.ip += 1
 
     def i_fstpl(self, s, ins):
         rm = self._pc_rm(s)
         v = self._pop87(s)
-        s.store(s.ea(ins.ops[0]), simp(z3.fpToIEEEBV(z3.fpFPToFP(rm, v, F64))), 8)
+        s.store(s.ea(ins.ops[0]), fp2bv(z3.fpFPToFP(rm, v, F64)), 8)
         s.ip += 1
 
     def _fistp(self, s, ins, n):
@@ -1409,7 +1465,8 @@ def _abs_kinds():
     global _ABS_KINDS
     if _ABS_KINDS is None:
         names = ["Z3_OP_BSDIV", "Z3_OP_BUDIV", "Z3_OP_BSREM", "Z3_OP_BUREM", "Z3_OP_BSMOD", "Z3_OP_BSDIV_I",
-                 "Z3_OP_BUDIV_I", "Z3_OP_BSREM_I", "Z3_OP_BUREM_I", "Z3_OP_BSMOD_I", "Z3_OP_BMUL"]
+                 "Z3_OP_BUDIV_I", "Z3_OP_BSREM_I", "Z3_OP_BUREM_I", "Z3_OP_BSMOD_I", "Z3_OP_BMUL",
+                 "Z3_OP_FPA_ADD", "Z3_OP_FPA_SUB", "Z3_OP_FPA_MUL", "Z3_OP_FPA_DIV"]
         _ABS_KINDS = {getattr(z3, n): n for n in names if hasattr(z3, n)}
     return _ABS_KINDS
 
@@ -1436,7 +1493,7 @@ def uf_abstract(exprs):
             if k == z3.Z3_OP_BMUL and any(z3.is_bv_value(c) for c in ch):
                 r = None
             else:
-                name = "%s_%d_%d" % (kinds[k].replace("_I", ""), e.size(), len(ch))
+                name = "%s_%s_%d" % (kinds[k].replace("_I", ""), str(e.sort()).replace(" ", ""), len(ch))
                 if name not in ufs:
                     ufs[name] = z3.Function(name, *([c.sort() for c in ch] + [e.sort()]))
                 r = ufs[name](*ch)
@@ -1467,7 +1524,7 @@ def prove(machine, hyps, goal, timeout_ms=60000):
     try:
         ab = uf_abstract(list(machine.assumes) + list(hyps) + [z3.Not(g)])
         sol = z3.Solver()
-        sol.set("timeout", min(timeout_ms, 10000))
+        sol.set("timeout", timeout_ms)
         sol.add(*ab)
         if sol.check() == z3.unsat:
             return "proved", None
